@@ -24,6 +24,58 @@ def sx(v, bits):
     return v - (1 << bits) if v >> (bits - 1) else v
 
 
+FLOAT_OPS = {"dtosi", "dtoui", "stosi", "stoui", "swtof", "uwtof", "sltof", "ultof", "exts", "truncd"}
+
+
+def _f(bits, k):
+    import struct
+    return struct.unpack("<f", struct.pack("<I", bits & M32))[0] if k == "s" else \
+        struct.unpack("<d", struct.pack("<Q", bits & M64))[0]
+
+
+def _b(x, k):
+    import struct
+    if k == "s":
+        try:
+            return struct.unpack("<I", struct.pack("<f", x))[0]
+        except OverflowError:
+            return 0x7f800000 if x > 0 else 0xff800000
+    return struct.unpack("<Q", struct.pack("<d", x))[0]
+
+
+def float_op(op, cls, a):
+    """the few floating-point instructions cproc emits for conversions in initialisers
+    (temporaries of class s/d hold the IEEE bit pattern)."""
+    import math
+    if op in ("dtosi", "dtoui", "stosi", "stoui"):
+        x = _f(a[0], op[0])
+        if math.isnan(x) or math.isinf(x):
+            raise Trap("float to int of nan/inf")
+        return int(x)
+    if op in ("swtof", "uwtof", "sltof", "ultof"):
+        bits = 32 if op[1] == "w" else 64
+        v = sx(a[0], bits) if op[0] == "s" else a[0] & ((1 << bits) - 1)
+        return _b(float(v), cls)
+    if op == "exts":
+        return _b(_f(a[0], "s"), "d")
+    if op == "truncd":
+        return _b(_f(a[0], "d"), "s")
+    if op in ("neg", "add", "sub", "mul", "div"):
+        x = _f(a[0], cls)
+        if op == "neg":
+            return _b(-x, cls)
+        y = _f(a[1], cls)
+        if op == "div" and y == 0:
+            raise Trap("float division by zero")
+        return _b({"add": x + y, "sub": x - y, "mul": x * y, "div": x / y if y else 0.0}[op], cls)
+    k = op[-1]
+    x, y = _f(a[0], k), _f(a[1], k)
+    un = math.isnan(x) or math.isnan(y)
+    rel = op[1:-1]
+    return int({"eq": x == y, "ne": x != y, "lt": x < y, "le": x <= y, "gt": x > y, "ge": x >= y,
+                "o": not un, "uo": un}[rel])
+
+
 class Func:
     def __init__(self, name, ret, params, variadic):
         self.name, self.ret, self.params, self.variadic = name, ret, params, variadic
@@ -218,7 +270,9 @@ class Machine:
         W = cls == "w"
         mask = M32 if W else M64
         bits = 32 if W else 64
-        if op in ("alloc4", "alloc8", "alloc16"):
+        if cls in ("s", "d") and op in ("neg", "add", "sub", "mul", "div"):
+            r = float_op(op, cls, a)
+        elif op in ("alloc4", "alloc8", "alloc16"):
             r = self.alloc(a[0], int(op[5:]))
         elif op == "copy":
             r = a[0]
@@ -277,6 +331,11 @@ class Machine:
             r = int({"eq": x == y, "ne": x != y, "le": x <= y, "lt": x < y, "ge": x >= y, "gt": x > y}[k])
         elif op == "call":
             r = self.docall(env, ln)
+        elif op in FLOAT_OPS or (cls in "sd" and op in ("neg", "add", "sub", "mul", "div")) or \
+                re.match(r"c(eq|ne|lt|le|gt|ge|o|uo)[sd]$", op):
+            r = float_op(op, cls, a)
         else:
             raise Unsupported("op " + op)
+        if cls == "s":
+            mask = M32
         env[dst] = r & mask
